@@ -384,12 +384,16 @@ func cmdCheck(prop, tier string, seed uint64, runsOverride int, keep bool) int {
 			return 2
 		}
 		cross = cr
-		fmt.Printf("synctest cross-check (%s): %d bubbles, %d clock reads checked, %d midnight crossings, %d violation(s)\n", cr.GoVersion, cr.Bubbles, cr.Reads, cr.Crossings, len(cr.Violations))
+		fmt.Printf("synctest cross-check (%s): %d bubbles + %d in a GOARCH=386 build, %d evaluations against the bubble clock checked (%d on 386), %d far dates, %d midnight crossings, %d violation(s)\n", cr.GoVersion, cr.Bubbles, cr.Bubbles386, cr.Reads, cr.Reads386, cr.FarDates, cr.Crossings, len(cr.Violations))
 		for _, v := range cr.Violations {
 			parts := strings.SplitN(v, "|", 3)
 			var bub int
 			fmt.Sscan(parts[1], &bub)
 			m.Violations = append(m.Violations, Violation{Property: cfg.ID, Oracle: "synctest cross-check on the uninstrumented package", Class: parts[0], Detail: parts[2] + " (bubble " + parts[1] + "; replay: CROSS_FROM=" + parts[1] + " CROSS_TO=" + fmt.Sprint(bub+1) + ")", Run: -1 - bub})
+		}
+		if cr.Bubbles386 > 0 && cr.Reads386 == 0 {
+			fmt.Fprintln(os.Stderr, "MACHINERY: the GOARCH=386 build of the synctest engine checked nothing")
+			return 2
 		}
 		if cr.Reads == 0 {
 			fmt.Fprintln(os.Stderr, "MACHINERY: synctest engine checked nothing")
@@ -616,7 +620,8 @@ func cmdCheck(prop, tier string, seed uint64, runsOverride int, keep bool) int {
 	}
 	if cross != nil {
 		ev["coverage"].(map[string]interface{})["synctest_cross_check"] = map[string]interface{}{
-			"engine": "uninstrumented package inside testing/synctest bubbles, " + cross.GoVersion, "bubbles": cross.Bubbles, "clock_reads_checked": cross.Reads,
+			"engine": "uninstrumented package inside testing/synctest bubbles, " + cross.GoVersion, "bubbles": cross.Bubbles, "bubbles_in_GOARCH_386_build": cross.Bubbles386, "clock_reads_checked": cross.Reads, "clock_reads_checked_on_386": cross.Reads386, "far_dates_checked": cross.FarDates,
+			"platforms": []string{"linux/amd64 (int = 64 bits)", "linux/386 (int = 32 bits)"},
 			"midnight_crossings_by_sleep": cross.Crossings, "zones": cross.Zones, "fake_clock_span": map[string]string{"min": cross.ClockMin, "max": cross.ClockMax}, "violations": len(cross.Violations)}
 	}
 	if err := writeJSON(filepath.Join(evidenceDir(), cfg.ID+".json"), ev); err != nil {
